@@ -429,7 +429,8 @@ func (vt *Model) il(ps int) {
 	}
 
 	if int(vt.margin.bottom-vt.cursor.row) < (ps - 1) {
-		ps = int(vt.margin.bottom - vt.cursor.row)
+		// all lines from the cursor to the bottom margin
+		ps = int(vt.margin.bottom-vt.cursor.row) + 1
 	}
 
 	// move the lines first
@@ -474,7 +475,8 @@ func (vt *Model) dl(ps int) {
 	}
 
 	if int(vt.margin.bottom-vt.cursor.row) < (ps - 1) {
-		ps = int(vt.margin.bottom - vt.cursor.row)
+		// all lines from the cursor to the bottom margin
+		ps = int(vt.margin.bottom-vt.cursor.row) + 1
 	}
 
 	for r := vt.cursor.row; r <= vt.margin.bottom; r += 1 {
